@@ -35,6 +35,8 @@ EXTENDS Values, Assign, Print, TLC
 CONSTANT Dev
 
 R(val, vote, st) == [val |-> val, vote |-> vote, st |-> st]
+\* st.sig: the cross-path signals this csvpath has raised and the CsvPaths instance has not yet taken note of (GroupRun.tla)
+NoSig == [stop |-> FALSE, fail |-> FALSE, skip |-> FALSE, adv |-> 0]
 QSet(node) == {node.quals[j] : j \in 1..Len(node.quals)}
 Has(node, q) == q \in QSet(node)
 
@@ -358,14 +360,18 @@ EvFn(node, st0, ctx) ==
     \* on the csvpath that executes them they are stop / skip / advance / fail
     [] nm \in {"stop", "fail_and_stop", "stop_all"} ->
           LET fire == N = 0 \/ rs[1].vote
-              st1 == IF fire THEN [st EXCEPT !.stopped = TRUE] ELSE st
+              st0s == IF fire /\ nm = "stop_all" THEN [st EXCEPT !.sig.stop = TRUE] ELSE st
+              st1 == IF fire THEN [st0s EXCEPT !.stopped = TRUE] ELSE st0s
               st2 == IF fire /\ nm = "fail_and_stop" THEN [st1 EXCEPT !.valid = FALSE] ELSE st1
           IN R(None, D, st2)
     [] nm \in {"skip", "skip_all"} ->
           LET fire == N = 0 \/ rs[1].vote
-          IN R(None, D, IF fire THEN [st EXCEPT !.skip = TRUE] ELSE st)
-    [] nm \in {"advance", "advance_all"} -> R(None, D, [st EXCEPT !.advance = A(1).i])
-    [] nm \in {"fail", "fail_all"} -> R(VBool(D), D, [st EXCEPT !.valid = FALSE])
+              st1 == IF fire /\ nm = "skip_all" THEN [st EXCEPT !.sig.skip = TRUE] ELSE st
+          IN R(None, D, IF fire THEN [st1 EXCEPT !.skip = TRUE] ELSE st1)
+    [] nm = "advance"     -> R(None, D, [st EXCEPT !.advance = A(1).i])
+    [] nm = "advance_all" -> R(None, D, [st EXCEPT !.advance = A(1).i, !.sig.adv = A(1).i])
+    [] nm = "fail"        -> R(VBool(D), D, [st EXCEPT !.valid = FALSE])
+    [] nm = "fail_all"    -> R(VBool(D), D, [st EXCEPT !.valid = FALSE, !.sig.fail = TRUE])
     [] nm = "failed"  -> R(VBool(~st.valid), ~st.valid, st)
     [] nm = "valid"   -> R(VBool(st.valid), st.valid, st)
     [] nm = "last"    -> LET b == ctx.k = ctx.endNum \/ ctx.lastScan
